@@ -1,6 +1,7 @@
 import PfModel.DriverVal
 import PfModel.Model.XLabel
 import PfModel.Model.XLabelFolder
+import PfModel.Model.XLabelSel
 /-! Driver for C19 (`xlabel`): the label structure of both xarray constructors on the model's own map run. -/
 open Lean PF PF.Drv PF.Map PF.XLabel
 
@@ -35,23 +36,13 @@ def putM (r : M Dataset) : Json := match r with | .ok d => putDataset d | .error
 
 def valEq (a b : Val) : Bool := (putVal a).compress == (putVal b).compress
 
-/-- `ds[o]`: the variable with the coordinates that live on its dimensions -/
-def arrayOfVar (d : Dataset) (v : Var) : Option DataArray :=
-  match v.dims with
-  | none => none
-  | some dims => some { name := v.name, dims := dims, data := v.data,
-                        coords := d.coords.filter fun c => c.dims.all fun a => dims.contains (some a) }
+/-- every `ds[o].sel({c: v})` for the 1-D plain coordinates of `ds[o]` (`PF.XLabel.allSel`: the defs `C19_sel_dataset` is about) -/
+def putSels (d : Dataset) : List Json :=
+  (allSel valEq d).map fun s => jArr [jStr s.var, jStr s.coord, putVal s.value, jOpt putVal s.result]
 
-/-- every `ds[o].sel({c: v})` for the 1-D plain coordinates of `ds[o]` -/
-def allSel (d : Dataset) : List Json :=
-  d.vars.flatMap fun v =>
-    match arrayOfVar d v with
-    | none => []
-    | some da =>
-      da.coords.flatMap fun c =>
-        match c.dims, c.val with
-        | [_], .plain (.arr _ xs) => xs.map fun x => jArr [jStr v.name, jStr c.name, putVal x, jOpt putVal (sel valEq da c.name x)]
-        | _, _ => []
+/-- every position of every joined coordinate of `ds[o]` with `ds[o].isel({dim: p})` (`PF.XLabel.allMulti`, `C19_isel_dataset`) -/
+def putMultis (d : Dataset) : List Json :=
+  (allMulti d).map fun s => jArr [jStr s.var, jStr s.coord, jStr s.dim, jNat s.pos, putVal s.value, jOpt putVal s.result]
 
 /-- an output whose value is a Python `list` (a plain function returning a list): the 1-D array of the run model, as a tuple
     value — `singleDims` then stores it dimensionless (what `_as_0d` does in `_xarray_dataset`) -/
@@ -139,7 +130,8 @@ def handle (m : String) (a : Json) : R Json := do
       let inputs := effectiveInputs fs inputs
       let d1 := fromResults mss inputs r li
       let d2 := fromFolder mss inputs r li
-      let sels := match d1 with | .ok d => allSel d | .error _ => []
+      let sels := match d1 with | .ok d => putSels d | .error _ => []
+      let multis := match d1 with | .ok d => putMultis d | .error _ => []
       let msOut := mss.flatMap fun ms => ms.outputs.map (·.name)
       let arrays := msOut.map fun o =>
         match xarrayOf mss inputs (alookup r.stored) li o with
@@ -149,7 +141,14 @@ def handle (m : String) (a : Json) : R Json := do
       return jObj [("results", putM d1), ("folder", putM d2), ("subset", putM d3), ("same", jBool ((putM d1).compress == (putM d2).compress)),
                    ("mapspec_axes", jList (fun n => jPair jStr (jOpt putDims) (n, mapspecAxes mss n)) ((allSpecs mss).map (·.name)).eraseDups),
                    ("deps", jList (fun o => jPair jStr (jList (jPair jStr (jList jStr))) (o, traceDependencies mss o)) (akeys (mapspecMapping mss))),
-                   ("sel", jArr sels), ("arrays", jArr arrays)]
+                   ("sel", jArr sels), ("isel", jArr multis), ("arrays", jArr arrays)]
+  | "singledims" =>
+    -- `PF.XLabel.singleDims`: how `_xarray_dataset` stores the value of an output without MapSpec (`shape = null`: not an ndarray)
+    let n ← strF a "name"
+    let v : Val := match (← optF (asOpt (asList asNat)) a "shape").getD none with
+      | some sh => .arr sh []
+      | none => .none
+    return jOpt putDims (singleDims n v)
   | _ => .error s!"unknown entry {m}"
 
 def main : IO Unit := loop handle
